@@ -97,6 +97,8 @@ def opGlobal : Handler := fun j => do
   let bounds ← listOf int (← field j "bounds")
   let ops ← listOf operandMOfJson (← field j "ops")
   let g ← listOf nat (← field j "gshape")
+  let offs ← listOf (optOf nat) (← field j "offs")
+  let gfixed ← bool (← field j "gfixed")      -- fix FC12e (guards) in ApplyLayoutCastSubviewGlobal
   match rewriteOpMaps fixed tiled spatial bounds ops with
   | .error e => return Json.mkObj [("raised", Json.str (errName e))]
   | .ok none => return Json.mkObj [("layouts", Json.null), ("global", Json.null)]
@@ -104,7 +106,7 @@ def opGlobal : Handler := fun j => do
     match ls with
     | [] => return Json.mkObj [("layouts", jList layoutToJson ls), ("global", Json.null)]
     | l0 :: _ =>
-      match globalLayout l0 g with
+      match (if gfixed then globalLayoutFixed l0 g offs else globalLayout l0 g) with
       | .error e => return Json.mkObj [("raised", Json.str (errName e))]
       | .ok r => return Json.mkObj [("layouts", jList layoutToJson ls), ("global", jOpt layoutToJson r)]
 
